@@ -452,6 +452,25 @@ func (s *s1Sim) drive(op *s1op, done chan struct{}, cancel context.CancelFunc, a
 		if nc > 0 {
 			evs = append(evs, s1event{"deliver:c2h", 6, func() { w.deliver(w.c2h) }})
 		}
+		if nc > 0 && op.kind == "ping" && !w.transportLost {
+			// a slow but sufficient container: the reply to Ping arrives 10 ms before Ping's 3 s deadline,
+			// and the caller is descheduled for 20 ms on its way out. Ping succeeded: the environment
+			// must stay usable.
+			evs = append(evs, s1event{"deliver:c2h_just_before_ping_deadline", 2, func() {
+				w.mu.Lock()
+				dl := w.hostEnd.deadline
+				w.mu.Unlock()
+				if d := time.Until(dl) - 10*time.Millisecond; !dl.IsZero() && d > 0 {
+					c.Fault("ping_reply_just_before_deadline")
+					time.Sleep(d)
+					s.c.SimTime += d
+					w.mu.Lock()
+					w.resetLag = 20 * time.Millisecond
+					w.mu.Unlock()
+				}
+				w.deliver(w.c2h)
+			}})
+		}
 		for _, ch := range running {
 			ch := ch
 			if op.plan != planRunForever {
@@ -479,7 +498,9 @@ func (s *s1Sim) drive(op *s1op, done chan struct{}, cancel context.CancelFunc, a
 		}
 		if len(evs) == 0 {
 			evs = append(evs, s1event{"tick", 1, func() { ticks++; time.Sleep(time.Second); s.c.SimTime += time.Second }})
-		} else if op.kind == "ping" && allowFault && !w.transportLost {
+		} else if op.kind == "ping" && allowFault && !w.transportLost && nh+nc > 0 {
+			// (only while the request or the reply is still in flight: once the reply has reached the
+			// host, the deadline has done its job and later time must not matter)
 			// a container slower than Ping's deadline: the environment is declared dead by the host
 			evs = append(evs, s1event{"ping_deadline", 1, func() {
 				c.Fault("ping_deadline_expired")
